@@ -19,10 +19,14 @@ type Trace struct {
 }
 
 var (
-	on   bool
-	full bool
-	cur  Trace
+	on       bool
+	full     bool
+	cur      Trace
+	excluded map[int]bool
 )
+
+// Exclude makes the tracer ignore events of the given sites (nil: none) until changed again.
+func Exclude(ids map[int]bool) { excluded = ids }
 
 const prime = 1099511628211
 
@@ -53,7 +57,7 @@ func Stop() Trace {
 
 // B reports entry into a source block.
 func B(id int) {
-	if on {
+	if on && !excluded[id] {
 		cur.BlockHash = mix(cur.BlockHash, uint64(id), 0xB)
 		cur.Blocks++
 		cur.Executed[id]++
@@ -65,7 +69,7 @@ func B(id int) {
 
 // C reports the outcome of the right operand of && / || (its evaluation is itself a branch).
 func C(id int, v bool) bool {
-	if on {
+	if on && !excluded[id] {
 		x := uint64(0)
 		if v {
 			x = 1
@@ -85,7 +89,7 @@ type integer interface {
 
 // I reports the value of a non-constant index or slice bound and returns it unchanged.
 func I[T integer](id int, i T) T {
-	if on {
+	if on && !excluded[id] {
 		cur.IndexHash = mix(cur.IndexHash, uint64(id), uint64(int64(i)))
 		cur.Indices++
 		if full {
